@@ -103,6 +103,10 @@ class FnAnalysis(ast.NodeVisitor):
             key = next((k.value for k in node.keywords if k.arg == "key"), None)
             if key is not None and ast.unparse(key) not in self.injective_keys:
                 self.flag(node, "sorted() of an unordered value with a key that is not declared injective (ties keep hash order)")
+        elif name in ("min", "max") and node.args and self.unordered(node.args[0]) and any(k.arg == "key" for k in node.keywords):
+            key = next(k.value for k in node.keywords if k.arg == "key")
+            if ast.unparse(key) not in self.injective_keys:
+                self.flag(node, f"{name}() of an unordered value with a key that is not declared injective (a tie is broken by hash order)")
         elif name == "next" and node.args and any(self.unordered(a) for a in node.args):
             self.flag(node, "next() picks an element of an unordered value")
         elif isinstance(f, ast.Attribute) and name in ("extend", "append", "insert", "update", "setdefault") and isinstance(f.value, ast.Name) and node.args \
